@@ -43,9 +43,9 @@ Print Assumptions C12_wait_any_deadline.
 (* whole runs: deadline before / at / after the natural completion (2 s), and wait_any_for *)
 Example C12_nonvacuous :
   let S := 4294967296 in
-  let '(s, fin) := run 50 (init 4 [[OExecAsync 1 (2*S); OWaitFor 1 (2*S)]; [OExecAsync 2 (2*S); OWaitFor 2 (2*S-1)];
+  let '(s, fin) := run 50 (init 4 [[OExecAsync 1 (2*S); OWaitFor 1 (2*S)]; [OExecAsync 2 (2*S); OWaitFor 2 S];
                                    [OExecAsync 3 (2*S); OWaitFor 3 (3*S)]; [OExecAsync 4 S; OExecAsync 5 (2*S); OWaitAny (3*S) [5;4]]]) in
   fin = true /\ halted s = false /\
-  In (ERet 1 1 (OWaitFor 1 (2*S)) 0 (2*S) 0 false) (log s) /\ In (ERet 2 1 (OWaitFor 2 (2*S-1)) 0 (2*S-1) 1 false) (log s) /\
+  In (ERet 1 1 (OWaitFor 1 (2*S)) 0 (2*S) 0 false) (log s) /\ In (ERet 2 1 (OWaitFor 2 S) 0 S 1 false) (log s) /\
   In (ERet 3 1 (OWaitFor 3 (3*S)) 0 (2*S) 0 false) (log s) /\ In (ERet 4 2 (OWaitAny (3*S) [5;4]) 0 S 4 false) (log s).
 Proof. vm_compute. repeat split; auto 30. Qed.
